@@ -20,6 +20,7 @@ C14, translator tie (B): `Gen/ConfigLoad.lean` is rewritten by `extract/configlo
 import Rivaas.Gen.ConfigLoad
 import Rivaas.Model.ConfigSM
 import Rivaas.Spec.Config
+import Rivaas.Props.C14
 
 namespace Rivaas.Tie.C14Load
 open Rivaas.Gen.ConfigLoad Rivaas.ConfigSkel Rivaas.ConfigSM
@@ -93,5 +94,17 @@ theorem model_get_follows_steps :
       .leaf "s:direct".toList ∧
     Rivaas.Config.classify (Rivaas.Config.getValue
       [("a".toList, .map [("b".toList, .leaf "s:nested".toList)])] "A.b".toList) = .leaf "s:nested".toList := by decide
+
+/-- the headline, stated on the regenerated program itself: the statement groups `extract/` found in the current
+    source of `(*Config).Load`, run one group at a time by any number of loader and reader threads under any schedule,
+    give the readers exactly what the atomic model gives on the recorded linearisation, and leave — whenever nobody
+    holds the write lock — the atomic model's state -/
+theorem source_program_refines_atomic (schema : Bool) (nv : Nat) (inputs : List Rivaas.Config.LoadInput)
+    (st0 : Rivaas.Config.State) (sched : List Act) :
+    let s := run loadSteps schema nv inputs (Sys.init st0) sched
+    s.seen.reverse = Rivaas.Config.runSched schema nv inputs st0 s.ops.reverse [] ∧
+    (s.writer = none → s.conc = (coarse schema nv inputs st0 s.ops.reverse).1) := by
+  rw [load_program_is_model]
+  exact Rivaas.C14.sm_refines_atomic schema nv inputs st0 sched
 
 end Rivaas.Tie.C14Load
